@@ -50,6 +50,9 @@ PARAM_POOL = [
     ("X-Trace", "header", {"type": "integer"}),
     ("sid", "cookie", {"type": "string"}),
     ("limit", "query", {"type": "integer", "maximum": 50}),
+    # named like the apiKey security parameters, but in the other location: different parameters
+    ("api_key", "header", {"type": "string"}),
+    ("X-API-Key", "query", {"type": "string"}),
     # property names that YAML 1.1 reads as booleans / numbers / null when unquoted
     ("flt", "query", {"type": "object", "properties": {"on": {"type": "integer"}, "1.0": {"type": "integer"}, "null": {"type": "string"}, "no": {"type": "boolean"}}}),
 ]
@@ -231,7 +234,14 @@ def reference_operations(doc):
                 else:
                     if any(oas_schema.deref(doc, raw).get("in") == "body" for raw in op.get("parameters", [])):
                         bodies = set(op.get("consumes") or doc.get("consumes") or ["application/json"])
-                out[label] = {"params": effective, "bodies": bodies}
+                security = set()
+                definitions = (doc.get("components", {}).get("securitySchemes") if version != "2.0" else doc.get("securityDefinitions")) or {}
+                for requirement in op.get("security", doc.get("security", [])) or []:
+                    for scheme_name in requirement:
+                        scheme = definitions.get(scheme_name) or {}
+                        if scheme.get("type") == "apiKey" and scheme.get("in") in ("header", "query", "cookie"):
+                            security.add((scheme["in"], scheme["name"]))
+                out[label] = {"params": effective, "bodies": bodies, "security": security}
             except Exception:
                 out[label] = "ERROR"
     return out
@@ -264,6 +274,9 @@ def compare(label, ref, obs, how):
         if len(values) > 1:
             viols.append(("C08/parameter-present-twice", f"{label} [{how}]: {key} appears {len(values)} times: {values}"))
     missing = set(ref["params"]) - set(obs_params)
+    lost_security = ref.get("security", set()) - set(obs["params"])
+    if lost_security:
+        viols.append(("C08/security-parameter-missing", f"{label} [{how}]: active apiKey requirement without its parameter {sorted(lost_security)}"))
     extra = set(obs_params) - set(ref["params"])
     if missing:
         viols.append(("C08/effective-parameter-missing", f"{label} [{how}]: missing {sorted(missing)}"))
